@@ -10,13 +10,13 @@ import re
 from rtmon import dtlib
 
 LEVEL = 'exploration'
-RULE = ('dates 1900-01-01..2099-12-31 (all month ends and leap days of sampled years, day<=12 swaps, special dates, seeded rest) x '
+RULE = ('dates 1900-01-01..2099-12-31 (thorough: 4 000 dates for en-us, 1 200 per other culture; quick: 300 / 120; all month ends and leap days of sampled years, day<=12 swaps, special dates, seeded rest) x '
         'layouts (en-us: 15 layouts exhaustively incl. blanks around the separators and backslashes; es-es, es-mx, fr-fr, pt-br, it-it, de-de, nl-nl: ISO, '
         'd/m/yyyy, dd/mm/yyyy, d-m-yyyy, d.m.yyyy, dd.mm.yyyy, the same with blanks around the separators, d\\m\\yyyy, month-name; zh-cn: ISO, yyyy/m/d, yyyy-m-d, yyyy年m月d日) x carrier sentences x an independent random reference in 1950..2090 '
         'per case; 15% of the cases are re-run with a second reference (and a virtual wall clock in another century) and must give the same '
         'entity list. non-trivial = one date entity returned; distinct = distinct (culture, query).')
 EXHAUSTIVE = False
-JOB_TIMEOUT = 1200
+JOB_TIMEOUT = 5400
 
 
 def dates(r, n):
@@ -166,7 +166,7 @@ class dtlib_vclock(object):
 def plan(tier, seed):
     jobs = []
     for cu in dtlib.DT_CULTURES:
-        sh = (4 if cu == 'en-us' else 1) if tier == 'quick' else (12 if cu == 'en-us' else 4)
+        sh = (4 if cu == 'en-us' else 1) if tier == 'quick' else (16 if cu == 'en-us' else 4)
         for s in range(sh):
             jobs.append({'name': '%s-%d' % (cu, s), 'culture': cu, 'shard': s, 'shards': sh, 'weight': 1})
     return jobs
@@ -176,7 +176,7 @@ def run(job, ctx):
     cu = job['culture']
     m = dtlib.dt_model(cu)
     r = ctx.rng('dates:%s' % cu)
-    n = (300 if cu == 'en-us' else 120) if ctx.tier == 'quick' else (12000 if cu == 'en-us' else 3000)
+    n = (300 if cu == 'en-us' else 120) if ctx.tier == 'quick' else (4000 if cu == 'en-us' else 1200)
     lay = dtlib.layouts(cu)
     cars = dtlib.carriers(cu)
     i = 0
